@@ -331,6 +331,36 @@ Definition set_plane (g : grid) (id : nat) (q : quad) (cs : cells_t) (mc : N) : 
   mkGrid (g_res g) (g_planecount g) mc (g_minx g) (g_minz g) (g_maxx g) (g_maxz g) cs
          (upd_nth id (fun _ => q) (g_planes g)).
 
+(* the four edge loops of mergeQuads, given the old and the new cell range of the moved plane *)
+Definition merge_cells (cs : cells_t) (hit : nat) (x0m y0m x0M y0M x1m y1m x1M y1M : nat) : cells_t :=
+  let expandLeft := Nat.ltb x1m x0m in
+  let minMinX := if expandLeft then x1m else x0m in
+  let maxMinX := if expandLeft then x0m else x1m in
+  let shrinkRight := Nat.ltb x1M x0M in
+  let minMaxX := if shrinkRight then x1M else x0M in
+  let maxMaxX := if shrinkRight then x0M else x1M in
+  let expandTop := Nat.ltb y1m y0m in
+  let minMinY := if expandTop then y1m else y0m in
+  let maxMinY := if expandTop then y0m else y1m in
+  let shrinkBottom := Nat.ltb y1M y0M in
+  let minMaxY := if shrinkBottom then y1M else y0M in
+  let maxMaxY := if shrinkBottom then y0M else y1M in
+  let add := fun l : list nat => l ++ [hit] in
+  let del := swap_remove hit in
+  (* left edge *)
+  let cs := strip cs (range_incl minMinY maxMaxY) (range_excl minMinX maxMinX)
+                  (if expandLeft then add else del) in
+  (* right edge *)
+  let cs := strip cs (range_incl minMinY maxMaxY) (rev (range_incl (S minMaxX) maxMaxX))
+                  (if shrinkRight then del else add) in
+  (* top edge *)
+  let cs := strip cs (range_excl minMinY maxMinY) (range_incl maxMinX minMaxX)
+                  (if expandTop then add else del) in
+  (* bottom edge *)
+  let cs := strip cs (rev (range_incl (S minMaxY) maxMaxY)) (range_incl maxMinX minMaxX)
+                  (if shrinkBottom then del else add) in
+  cs.
+
 Definition merge_quads (g : grid) (hit : nat) (nq : quad) : grid :=
   match nth_error (g_planes g) hit with
   | None => g
@@ -338,34 +368,7 @@ Definition merge_quads (g : grid) (hit : nat) (nq : quad) : grid :=
       let '(x0m, y0m, x0M, y0M) := footprint g eq in
       let eq' := blend_quad eq nq in
       let '(x1m, y1m, x1M, y1M) := footprint g eq' in
-      let expandLeft := Nat.ltb x1m x0m in
-      let minMinX := if expandLeft then x1m else x0m in
-      let maxMinX := if expandLeft then x0m else x1m in
-      let shrinkRight := Nat.ltb x1M x0M in
-      let minMaxX := if shrinkRight then x1M else x0M in
-      let maxMaxX := if shrinkRight then x0M else x1M in
-      let expandTop := Nat.ltb y1m y0m in
-      let minMinY := if expandTop then y1m else y0m in
-      let maxMinY := if expandTop then y0m else y1m in
-      let shrinkBottom := Nat.ltb y1M y0M in
-      let minMaxY := if shrinkBottom then y1M else y0M in
-      let maxMaxY := if shrinkBottom then y0M else y1M in
-      let add := fun l : list nat => l ++ [hit] in
-      let del := swap_remove hit in
-      let cs := g_cells g in
-      (* left edge *)
-      let cs := strip cs (range_incl minMinY maxMaxY) (range_excl minMinX maxMinX)
-                      (if expandLeft then add else del) in
-      (* right edge *)
-      let cs := strip cs (range_incl minMinY maxMaxY) (rev (range_incl (S minMaxX) maxMaxX))
-                      (if shrinkRight then del else add) in
-      (* top edge *)
-      let cs := strip cs (range_excl minMinY maxMinY) (range_incl maxMinX minMaxX)
-                      (if expandTop then add else del) in
-      (* bottom edge *)
-      let cs := strip cs (rev (range_incl (S minMaxY) maxMaxY)) (range_incl maxMinX minMaxX)
-                      (if shrinkBottom then del else add) in
-      set_plane g hit eq' cs (g_mergecount g + 1)
+      set_plane g hit eq' (merge_cells (g_cells g) hit x0m y0m x0M y0M x1m y1m x1M y1M) (g_mergecount g + 1)
   end.
 
 (* ------------------------------------------------------------------ InsertQuad *)
@@ -467,13 +470,15 @@ Definition get_debug_info (g : grid) : debug_info :=
 (* ------------------------------------------------------------------ the domain of C20 *)
 Definition bound : Q := 64.
 
+Definition veq (a b : vec) : Prop := vx a == vx b /\ vy a == vy b /\ vz a == vz b.
+
 (* a horizontal quad with positive extents inside the 64 m box, as NewQuadFromProtobuf builds it *)
 Definition valid_quad (q : quad) : Prop :=
   0 < vx (qe q) /\ vy (qe q) == 0 /\ 0 < vz (qe q) /\
   - bound <= vx (qmin q) /\ vx (qmax q) <= bound /\
   - bound <= vz (qmin q) /\ vz (qmax q) <= bound /\
   - bound <= vy (qc q) /\ vy (qc q) <= bound /\
-  qn q = calc_normal (qc q) (qe q).
+  veq (qn q) (calc_normal (qc q) (qe q)).
 
 Definition valid_quad_b (q : quad) : bool :=
   Qlt_bool 0 (vx (qe q)) && isz (vy (qe q)) && Qlt_bool 0 (vz (qe q)) &&
@@ -482,18 +487,46 @@ Definition valid_quad_b (q : quad) : bool :=
   Qle_bool (- bound) (vy (qc q)) && Qle_bool (vy (qc q)) bound &&
   veq_bool (qn q) (calc_normal (qc q) (qe q)).
 
+(* ------------------------------------------------------------------ the session's grid (dagaz.go)
+   Module.Init fetches the session's module state, or creates it with a new grid, when a participant
+   joins; [recreate] says whether Init ALSO replaces the grid of an existing state (tied to the
+   sources by GenGrid.init_recreates_grid).  Departures do not touch the module state. *)
+Inductive sop := SJoin | SLeave | SInsert (q : quad).
+
+Definition sess_step (recreate : bool) (g : grid) (o : sop) : grid :=
+  match o with
+  | SJoin => if recreate then new_grid 1 1 module_resolution else g
+  | SLeave => g
+  | SInsert q => insert g q
+  end.
+
+(* the session is created (with its grid) by the first join; [ops] is what happens afterwards *)
+Definition sess_run (recreate : bool) (ops : list sop) : grid :=
+  fold_left (sess_step recreate) ops (new_grid 1 1 module_resolution).
+
+Fixpoint inserted (ops : list sop) : list quad :=
+  match ops with
+  | [] => []
+  | SInsert q :: r => q :: inserted r
+  | _ :: r => inserted r
+  end.
+
 (* ------------------------------------------------------------------ the property, executable
    (P_C20; evaluated by the oracle on the dumped implementation state with tol > 0 and stated
    about the model with tol = 0 in proofs/GridProofs.v) *)
 
 (* footprint of q meets cell (x, y) in more than [tol]:  the cell is
    [minx + x*res, minx + (x+1)*res) x [minz + y*res, …) *)
-Definition overlaps_cell_b (tol : Q) (g : grid) (q : quad) (y x : nat) : bool :=
+Definition overlaps_col_b (tol : Q) (g : grid) (q : quad) (x : nat) : bool :=
   let res := inject_Z (g_res g) in
   let lox := inject_Z (g_minx g) + inject_Z (Z.of_nat x) * res in
+  Qle_bool (lox + tol) (vx (qmax q)) && Qlt_bool (vx (qmin q) + tol) (lox + res).
+Definition overlaps_row_b (tol : Q) (g : grid) (q : quad) (y : nat) : bool :=
+  let res := inject_Z (g_res g) in
   let loz := inject_Z (g_minz g) + inject_Z (Z.of_nat y) * res in
-  Qle_bool (lox + tol) (vx (qmax q)) && Qlt_bool (vx (qmin q) + tol) (lox + res) &&
   Qle_bool (loz + tol) (vz (qmax q)) && Qlt_bool (vz (qmin q) + tol) (loz + res).
+Definition overlaps_cell_b (tol : Q) (g : grid) (q : quad) (y x : nat) : bool :=
+  overlaps_row_b tol g q y && overlaps_col_b tol g q x.
 
 Definition mem (id : nat) (l : list nat) : bool := existsb (Nat.eqb id) l.
 
@@ -501,10 +534,12 @@ Definition mem (id : nat) (l : list nat) : bool := existsb (Nat.eqb id) l.
 Definition incomplete (tol : Q) (g : grid) : list (nat * nat * nat) :=
   flat_map (fun idq : nat * quad =>
     flat_map (fun y =>
-      flat_map (fun x =>
-        if overlaps_cell_b tol g (snd idq) y x && negb (mem (fst idq) (get_cell (g_cells g) y x))
-        then [(fst idq, y, x)] else [])
-      (seq 0 (length (nth y (g_cells g) []))))
+      if overlaps_row_b tol g (snd idq) y then
+        flat_map (fun x =>
+          if overlaps_col_b tol g (snd idq) x && negb (mem (fst idq) (get_cell (g_cells g) y x))
+          then [(fst idq, y, x)] else [])
+        (seq 0 (length (nth y (g_cells g) [])))
+      else [])
     (seq 0 (nrows g)))
   (combine (seq 0 (length (g_planes g))) (g_planes g)).
 
